@@ -293,7 +293,9 @@ def probe_args(name, probes, which):
     return None
 
 
-def observe(shape, probes, which, ctx):
+def observe(shape, probes, which, ctx, fresh=None):
+    """every public query of `shape`.  to_hoomd moves the shape to the origin and back and is not exception safe
+    (a query raising in between leaves the shape translated), so it is called on a fresh copy `fresh()`."""
     obs = {}
     with warnings.catch_warnings():
         warnings.simplefilter("ignore")
@@ -301,6 +303,9 @@ def observe(shape, probes, which, ctx):
             if name in SKIP:
                 continue
             try:
+                if name == "to_hoomd" and fresh is not None:
+                    obs[name] = ("ok", canon(fresh().to_hoomd()))
+                    continue
                 if kind == "property":
                     v = getattr(shape, name)
                 else:
@@ -532,7 +537,15 @@ def check_law(env, name, law, vx, vg):
         if law == "face_points":
             return None if env.close(gp(g, vx), vg, Lmax) else "face centroids do not move with the shape"
         if law == "face_vectors":
-            return None if env.close(vx @ R.T, vg, 1.0) else "face normals do not rotate with the shape"
+            e = vx @ R.T
+            if env.close(e, vg, 1.0):
+                return None
+            flip = np.array([env.close(-e[k], vg[k], 1.0) and not env.close(e[k], vg[k], 1.0) for k in range(len(e))])
+            rest = ~flip
+            if flip.any() and env.close(e[rest], vg[rest], 1.0) and env.cls == "Polyhedron":
+                env.flipped = set(int(k) for k in np.where(flip)[0])
+                return "REFLEX"
+            return "face normals do not rotate with the shape"
         if law == "face_areas":
             return None if env.close(vx * s * s, vg, dmax ** 2) else "face areas do not scale by s^2"
         nr = vx[:, :3] @ R.T
@@ -881,7 +894,10 @@ def compare(env):
         nb = env.val("x", "neighbors")
         if fm is not None:
             pairs = [(i, int(j)) for i in range(len(nb)) for j in np.ravel(nb[i]) if i < int(j)][:12]
+            flipped = getattr(env, "flipped", set())
             for i, j in pairs:
+                if i in flipped or j in flipped:
+                    continue
                 try:
                     da, db = float(env.sx.get_dihedral(i, j)), float(env.sg.get_dihedral(fm[i], fm[j]))
                 except Exception as e:  # noqa: BLE001
@@ -1169,7 +1185,7 @@ def eval_case(ctx, case, gs):
         return
     rng = np.random.default_rng(case.get("probe_seed", 0))
     pr0 = make_probes(rng, case, sx)
-    ox = observe(sx, pr0, "x", ctx)
+    ox = observe(sx, pr0, "x", ctx, lambda: build(case))
     d = case_size(case)
     Ls = d + float(np.linalg.norm(ref_point(case)))
     mx = model_measures(ctx, sx, case)
@@ -1189,9 +1205,19 @@ def eval_case(ctx, case, gs):
                      record, repr(e))
             continue
         pr = map_probes(pr0, g)
-        og = observe(sg, pr, "g", ctx)
+        og = observe(sg, pr, "g", ctx, lambda: build(gcase))
         env = Env(ctx, case, gcase, g, sx, sg, ox, og, pr)
-        for name, what, detail in compare(env):
+        res = compare(env)
+        if getattr(env, "flipped", None):
+            # one finding: every query derived from the stored plane equations is reported under the normals
+            res = [r for r in res if r[0] not in ("insphere", "insphere_radius", "compute_form_factor_amplitude")]
+        for name, what, detail in res:
+            if what == "REFLEX":
+                ctx.fail("%s.normals:normal-from-reflex-first-corner" % cls,
+                         "the stored normal / plane equation of a non-convex face is taken from its first corner: "
+                         "listing the face from another vertex (reflex first corner) inverts it", record,
+                         sorted(env.flipped))
+                continue
             if what == "NAN":
                 ctx.fail("%s.get_dihedral:nan-for-coplanar-neighbours" % cls,
                          "get_dihedral of two coplanar neighbouring faces is pi on one side of g and nan on the other "
@@ -1227,7 +1253,7 @@ def attribute(ctx, case, sx, ox, pr0, g, name):
             hcase = transform_case(case, h)
             sh = build(hcase)
             pr = map_probes(pr0, h)
-            oh = observe(sh, pr, "g", ctx)
+            oh = observe(sh, pr, "g", ctx, lambda: build(hcase))
             env = Env(ctx, case, hcase, h, sx, sh, ox, oh, pr)
             if any(nm == name for nm, _, _ in compare(env)):
                 return h["kind"]
@@ -1274,7 +1300,23 @@ def choose_gs(rng, case, ctx):
         el = [k for k in kinds if k != "composite"]
         keep = list(rng.choice(el, size=2, replace=False))
         kinds = keep + ["composite"]
-    return [make_g(rng, k, case) for k in kinds]
+    gs = [make_g(rng, k, case) for k in kinds]
+    if cls in ("Polygon", "ConvexPolygon", "ConvexSpheropolygon"):
+        gs.append(far_corner(rng, case))
+    return gs
+
+
+def far_corner(rng, case, s=None, u=None):
+    """large and far away: scale 600..1000, then 8..10 (scaled) diameters off — coordinates ~1e4
+    (the regime in which the unnormalised Bentley-Ottmann sweep rejected valid polygons)"""
+    g = make_g(rng, "composite", case)
+    g["s"] = float(rng.uniform(600, 1000)) if s is None else s
+    size = case_size(case)
+    u = rng.normal(size=3) if u is None else np.asarray(u, dtype=float)
+    if case.get("plane") == "xy" and g["alpha"] is not None:
+        u[2] = 0.0
+    g["t"] = u / np.linalg.norm(u) * float(rng.uniform(8, 10)) * size * g["s"]
+    return g
 
 
 def corpus(ctx):
